@@ -164,13 +164,23 @@ impl Curve for K256 {
 
     fn batch_normalize(p: &[Self], q: &mut [Self::AffineRepr]) {
         assert_eq!(p.len(), q.len());
-        let inner: Vec<ProjectivePoint> = p.iter().map(|pt| pt.0).collect();
+        // The underlying batch normalization supports neither empty inputs nor
+        // the identity, which is thus handled apart.
+        let (ids, others): (Vec<usize>, Vec<usize>) =
+            (0..p.len()).partition(|i| bool::from(p[*i].is_identity()));
+        for i in ids {
+            q[i] = K256Affine::identity();
+        }
+        if others.is_empty() {
+            return;
+        }
+        let inner: Vec<ProjectivePoint> = others.iter().map(|i| p[*i].0).collect();
 
         let affine_points: Vec<AffinePoint> =
             <ProjectivePoint as BatchNormalize<[ProjectivePoint]>>::batch_normalize(&inner);
 
-        for (dst, src) in q.iter_mut().zip(affine_points.into_iter()) {
-            *dst = K256Affine(src);
+        for (i, src) in others.into_iter().zip(affine_points.into_iter()) {
+            q[i] = K256Affine(src);
         }
     }
 }
